@@ -22,6 +22,8 @@ having local types we can modify.
 """
 from typing import List, Dict
 
+from deep import logging
+
 # noinspection PyUnresolvedReferences
 from deepproto.proto.common.v1.common_pb2 import KeyValue, AnyValue, ArrayValue, KeyValueList
 # noinspection PyUnresolvedReferences
@@ -122,6 +124,11 @@ def convert_response(response) -> List[Trigger]:
         # from the incoming tracepoints create a Trigger with actions
         trigger = build_trigger(r.ID, r.path, r.line_number, dict(r.args), [w for w in r.watches],
                                 __convert_metric_definition(r.metrics))
+        if trigger is None:
+            # a tracepoint we cannot interpret must not stop the other tracepoints from being installed
+            logging.warning("Cannot create tracepoint %s at %s:%s with args %s", r.ID, r.path, r.line_number,
+                            dict(r.args))
+            continue
         location_id = trigger.id
         # if we already have a trigger for this location then merge the new actions into it
         if location_id in all_triggers:
